@@ -188,10 +188,10 @@ pub fn debug_bounded<T: std::fmt::Debug>(v: &T) -> String {
 impl Answer {
     pub fn ok_debug<T: std::fmt::Debug>(v: &T) -> Answer {
         let c = canon(&debug_bounded(v));
-        Answer { ok: true, digest: hash_str(&c), text: c.chars().take(160).collect() }
+        Answer { ok: true, digest: hash_str(&c), text: c.chars().take(if std::env::var("VERIF_DEBUG").is_ok() { 2000 } else { 160 }).collect() }
     }
     pub fn ok_text(c: String) -> Answer {
-        Answer { ok: true, digest: hash_str(&c), text: c.chars().take(160).collect() }
+        Answer { ok: true, digest: hash_str(&c), text: c.chars().take(if std::env::var("VERIF_DEBUG").is_ok() { 2000 } else { 160 }).collect() }
     }
     pub fn ok_bytes(b: &[u8]) -> Answer {
         let mut h = Hasher64::new();
